@@ -42,6 +42,25 @@ def history(rng, w, length):
         i = new("val", c=rng.choice(consts))
         ids.append(i)
         transparent.add(i)
+    if rng.random() < 0.35:
+        # a power ladder: three to five product terms over the same variable set (x, x*x, x*x*x or x*y, x*x*y,
+        # x*y*y ...) with coefficients around 1, -1 and the half modulus, summed and normalised - normalize()
+        # pairs such terms up, and with three or more of them every pairing has to see the previous one
+        x = ids[0]
+        y = ids[1] if rng.random() < 0.5 else None
+        base = x if y is None else new("mul", a=x, b=y)
+        terms = [base]
+        for _ in range(rng.randint(2, 4)):
+            terms.append(new("mul", a=terms[-1] if rng.random() < 0.7 else rng.choice(terms),
+                             b=x if (y is None or rng.random() < 0.5) else y))
+        acc = None
+        for t in terms:
+            cf = new("val", c=rng.choice([1, 1, m, half, half + 1, half - 1, 3, m - 1, 2]))
+            ct = new("mul", a=cf, b=t)
+            acc = ct if acc is None else new("add", a=acc, b=ct)
+        ids.append(acc)
+        transparent.add(acc)
+        ids.append(new("normalize", a=acc))
     for _ in range(length):
         k = rng.random()
         a = rng.choice(ids)
